@@ -470,6 +470,9 @@ def build(world):
     def _abs(I, a, k):
         if isinstance(a[0], (int, float)):
             return abs(a[0])
+        if isinstance(a[0], Sym) and I.kind(a[0]) == "real":
+            xr = smt.get_x(a[0].term)
+            return Sym(smt.VReal(z3.If(xr < 0, -xr, xr)))
         x = I.as_int(a[0])
         return Sym(VInt(z3.If(x < 0, -x, x)))
 
